@@ -2426,6 +2426,11 @@ struct Explorer {
       bool edited_during = !op.cfg.edits_during.empty();
       bool success = r.exit_code == 0 && !r.hang && !r.crashed && !r.horizon;
       bool content_bad = false;
+      if (Want("C17") && op.tool && (r.hang || r.horizon)) {
+        Violation x; x.prop = "C17"; x.clause = "tool-does-not-terminate";
+        x.detail = "'" + op.label + "' does not terminate on this graph";
+        vs.push_back(x);
+      }
       if (props.count("C08")) CheckLogHandling(op, r, w.disk, d, &vs);
       if (props.count("C09")) CheckDepsLogHandling(op, r, w.disk, d, &vs);
       if (op.tool && op.tool_kind.compare(0, 5, "clean") == 0) {
@@ -2867,7 +2872,20 @@ int main(int argc, char** argv) {
   vx::Args a(argc, argv);
   nx::InitCapture();
   if (!a.Has("replay")) {
-    for (int sig : {SIGSEGV, SIGABRT, SIGBUS, SIGFPE, SIGILL}) signal(sig, CrashHandler);
+    // an alternate stack, so that a stack overflow (unbounded recursion in ninja) is reported too
+    static char altstack[1 << 16];
+    stack_t ss;
+    ss.ss_sp = altstack;
+    ss.ss_size = sizeof altstack;
+    ss.ss_flags = 0;
+    sigaltstack(&ss, nullptr);
+    for (int sig : {SIGSEGV, SIGABRT, SIGBUS, SIGFPE, SIGILL}) {
+      struct sigaction sa;
+      memset(&sa, 0, sizeof sa);
+      sa.sa_handler = CrashHandler;
+      sa.sa_flags = SA_ONSTACK;
+      sigaction(sig, &sa, nullptr);
+    }
   }
   string file = a.Get("scenarios");
   long shard = a.GetInt("shard", 0), nshards = a.GetInt("nshards", 1);
